@@ -376,6 +376,40 @@ Fixpoint column_info_from (opts : list (str * option str)) (next_anon : nat)
 Definition column_info (opts : list (str * option str)) : res colinfo :=
   column_info_from opts 1 [] [] [].
 
+(* the fourth result of parse_column_info: the names as given (None for an anonymous DROP/SKIP) *)
+Fixpoint given_names (opts : list (str * option str)) : list (option str) :=
+  match opts with
+  | [] => []
+  | (key, Some value) :: tl =>
+      (if is_dropword key then Some value
+       else if is_dropword value then Some key
+       else if mems key reserved_names then Some value
+       else Some key) :: given_names tl
+  | (key, None) :: tl => (if is_dropword key then None else Some key) :: given_names tl
+  end.
+
+(* update.py update_input: the $INPUT record for a changed dataset.  `new` = (name, drop) of the
+   columns of the new datainfo.  An old option is replaced when its given name differs from the new
+   name — but an ANONYMOUS old option has no given name and is never replaced (defect) — or when the
+   column becomes dropped; surplus old options are discarded, surplus new columns appended. *)
+Fixpoint update_input_from (old : list (str * option str)) (given : list (option str)) (drops : list bool)
+         (new : list (str * bool)) {struct new} : list (str * option str) :=
+  match new with
+  | [] => []
+  | (nm, nd) :: new' =>
+      match old, given, drops with
+      | o :: old', g :: given', d :: drops' =>
+          let changed := match g with Some x => negb (str_eqb x nm) | None => false end || (negb d && nd) in
+          let anonymous := match g with None => true | Some _ => false end in
+          (if changed
+           then (if anonymous && nd then s_DROP else nm, if negb anonymous && nd then Some s_DROP else None)
+           else o) :: update_input_from old' given' drops' new'
+      | _, _, _ => map (fun x : str * bool => (fst x, if snd x then Some s_DROP else @None str)) new
+      end
+  end.
+Definition update_input_model (old : list (str * option str)) (drops : list bool) (new : list (str * bool))
+  : list (str * option str) := update_input_from old (given_names old) drops new.
+
 Fixpoint alookup_s {A} (l : list (str * A)) (k : str) : option A :=
   match l with
   | [] => None
@@ -476,7 +510,7 @@ Definition apply_filter (names : list str) (syn : list (str * str)) (nullstr mdt
                      end in
   let e := unquote (f_expr f) in
   match index_of (filter_column syn f) names with
-  | None => Err OtherErr                                    (* UndefinedVariableError / KeyError *)
+  | None => match kind with KStr => Err OtherErr | KFloat => Err KeyErr end   (* UndefinedVariableError / df[column] *)
   | Some j =>
       match kind with
       | KStr => Ok (filter (fun r => keep_of ignore (cmp_str op (nth_cell r j) e)) rows)
@@ -582,6 +616,8 @@ Definition is_label (l : option str) (nm : str) : bool :=
 (* int('...') of a Python str: optional sign, digit group *)
 Definition pyint_ok (s : str) : bool :=
   let (_, r) := take_sign s in group_ok r && forallb is_dig_us r.
+(* fits an int32 for sure (at most nine digits) *)
+Definition pyint_small (s : str) : bool := pyint_ok s && (length (filter is_digit s) <=? 9).
 
 (* float64 -> int32 cast (truncation toward zero); NaN cannot be cast *)
 Definition to_int32 (c : cell) : res cell :=
@@ -615,7 +651,8 @@ Definition id_check_cell (c : icell) : res unit :=
   match c with
   | IVal (CNum _) => Ok tt
   | IVal _ => Err ValueErr
-  | IRaw (Some s) => if pyint_ok s then Ok tt else Err ValueErr
+  | IRaw (Some s) => if pyint_ok s then (if pyint_small s then Ok tt else Err OtherErr)   (* OverflowError *)
+                     else Err ValueErr
   | IRaw None => Err OtherErr
   end.
 Definition id_check (lbl : option str) (c : column) : res unit :=
@@ -645,7 +682,7 @@ Definition postprocess (lbl : option str) (dates : bool) (nullstr mdt : str) (co
 Record input := mkInput {
   i_text : str;                                (* contents of the data file *)
   i_options : list (str * option str);         (* $INPUT record.all_options *)
-  i_ignchar : option N;                        (* $DATA IGNORE=c *)
+  i_ignchar : option str;                      (* $DATA IGNORE=c : the CHAR token as written (c, 'c' or "c") *)
   i_null : option N;                           (* $DATA NULL=c *)
   i_ignore : list filt;                        (* $DATA IGNORE=(list), in order *)
   i_accept : list filt;                        (* $DATA ACCEPT=(list), in order *)
@@ -660,7 +697,14 @@ Definition null_string (c : option N) : res str :=
                else if is_digit ch then Ok [ch; c_dot; c_0] else Err ValueErr
   end.
 
-Definition ign_char (c : option N) : N := match c with Some ch => ch | None => c_hash end.
+(* DataRecord.ignore_character: a three character token is a quoted character; NMTRANDataIO: no
+   character means '#' *)
+Definition ign_char (c : option str) : N :=
+  match c with
+  | Some [_; x; _] => x
+  | Some (x :: _) => x
+  | _ => c_hash
+  end.
 
 Definition kept_names (names : list str) (drops : list bool) : list str :=
   map fst (filter (fun nd => negb (snd nd)) (combine names drops)).
